@@ -541,4 +541,10 @@ theorem C20_sufficient_translated_partial [LawfulVal α] (hz : Val.neg (Val.zero
     refine C20_sufficient_exact_partial hz σ σ' n hn φ hwf hfrag ex' hU hviol (fun x t hr ht => ?_)
     exact hagree x t (by rw [reportedZ_cast]; exact hr) ht
 
+/-- `interval_union` of the LTL module (the copy `Explanations.__setitem__` uses to merge the intervals recorded for a name that is
+    explained more than once) is `unionIvs` too: the two modules carry the same function. -/
+theorem fn_interval_union_ltl (I : Ivs) :
+    call (α := α) Gen.Expl.ltl_interval_union [] [encI I] = .ok ([], encI (unionIvs I)) :=
+  fn_interval_union I
+
 end Rtamt.Py
